@@ -59,14 +59,42 @@ WHAT = {
 }
 
 
-def run_property(prop, tier, seed, driver_args, rule, extra_cov=None, assumptions=None):
+SCRIPTS = os.path.join(vlib.SPEC, "generated", "scripts.ndjson")
+
+
+def play_scripts(d, seed, max_scripts):
+    """Scripts that TLC generated from spec/HotStuffAbs.tla (behaviours of the correct model and Agreement-violating
+    behaviours of models with one weakened rule) are played against real replicas by `hsverif attack`."""
+    tr, st = os.path.join(d, "attack.ndjson"), os.path.join(d, "attack_status.ndjson")
+    vlib.run_harness(["attack", "-scripts", SCRIPTS, "-out", tr, "-status", st, "-seed", seed, "-max", max_scripts], timeout=3000)
+    rows, status = vlib.read_ndjson(tr), vlib.read_ndjson(st)
+    summ = {}
+    for s in status:
+        e = summ.setdefault("%s/%s" % (s["rs"], s["weak"]), {})
+        e[s["status"]] = e.get(s["status"], 0) + 1
+    drift = [s for s in status if (s["kind"] == "follow" and s["status"] != "completed") or (s["kind"] == "attack" and s["status"] not in ("refused",))]
+    return rows, {"scripts_played": len(status), "script_outcomes": summ,
+                  "script_conformance_drift": [{k: s[k] for k in ("job", "idx", "status", "at", "notes")} for s in drift[:10]],
+                  "script_conformance_drift_count": len(drift)}
+
+
+def run_property(prop, tier, seed, driver_args, rule, extra_cov=None, assumptions=None, scripts=0, more=()):
     """Common body of C01/C03/C05/C06/C07."""
     t0 = time.time()
     v = vlib.Verdict(prop)
+    script_cov = {}
     with vlib.scratch(prop) as d:
         tr = os.path.join(d, "trace.ndjson")
         vlib.run_harness(["proto", "-out", tr, "-seed", seed] + driver_args, timeout=3000)
         rows = vlib.read_ndjson(tr)
+        for i, extra in enumerate(more):
+            # further batches of runs (e.g. one scenario of the library only), same seed
+            tr2 = os.path.join(d, "trace_more%d.ndjson" % i)
+            vlib.run_harness(["proto", "-out", tr2, "-seed", seed] + list(extra), timeout=3000)
+            rows = rows + vlib.read_ndjson(tr2)
+        if scripts:
+            arows, script_cov = play_scripts(d, seed, scripts)
+            rows = rows + arows
         allrows = rows
         cfg = "Trace_P_%s.cfg" % prop
         states = 0
@@ -84,7 +112,8 @@ def run_property(prop, tier, seed, driver_args, rule, extra_cov=None, assumption
             key = KEYS[prop](line, rows, l)
             v.violation(key, "%s (run: n=%d %s byz=%s leaders=%s; step %d): %s" % (
                 WHAT[prop], rows[k]["n"], rows[k]["rs"], rows[k]["byz"], rows[k]["lmode"], l - k, json.dumps(brief(line))[:900]),
-                {"run": rows[k:l], "harness": "hsverif proto -seed %d %s" % (seed, " ".join(str(a) for a in driver_args))})
+                {"run": rows[k:l], "harness": ("hsverif attack -scripts spec/generated/scripts.ndjson -seed %d (script %s)" % (seed, json.dumps(rows[k]["script"])))
+                 if "script" in rows[k] else "hsverif proto -seed %d %s" % (seed, " ".join(str(a) for a in driver_args))})
             # drop the runs with this key and keep judging the rest
             keep = []
             for rr in split_runs(rows):
@@ -119,6 +148,10 @@ def run_property(prop, tier, seed, driver_args, rule, extra_cov=None, assumption
         "rule": rule, "runs": len(runs), "steps": nsteps, "commit_events": commits, "votes_signed": votes, "byzantine_actions": byzacts,
         "view_increments": incs, "by_ruleset": by_rs, "replica_panics": panics, "checker_cmd": cmd,
     }
+    cov.update(script_cov)
+    if script_cov.get("script_conformance_drift_count"):
+        print("[%s] WARNING: %d TLC-generated scripts were not followed as the model predicts (conformance drift, not a verdict)" % (
+            prop, script_cov["script_conformance_drift_count"]))
     if extra_cov:
         cov.update(extra_cov(rows))
     vlib.write_evidence(prop, tier, seed, "model_checking", cov, time.time() - t0, violations=len(v.violations), assumptions=assumptions or [])
